@@ -196,6 +196,65 @@ func c11Run(c core.Case) core.Result {
 			return core.Violation("macro", fmt.Sprintf("%q renders\n    %q, want\n    %q", tpls["main"], out, want))
 		}
 		return core.Okay(true, out)
+	case "nestargs":
+		// arguments that are themselves macro calls with arguments, after an earlier call in the same execution
+		form := c.N[0]
+		shapes := c.N[1:]
+		atomSrc := func(i, shape int, pfx string) (string, string) {
+			l := "'s" + itoa(i) + "'"
+			v := "s" + itoa(i)
+			switch shape {
+			case 0:
+				return l, v
+			case 1:
+				return pfx + "wrap(" + l + ")", "<" + v + ">"
+			case 2:
+				return pfx + "pair(" + l + ", 'q')", "[" + v + "|q]"
+			default:
+				return pfx + "wrap(" + pfx + "pair('p', " + l + "))", "<[p|" + v + "]>"
+			}
+		}
+		pfx := map[int]string{0: "_self.", 1: "i.", 2: "", 3: ""}[form]
+		defs := "{% macro m3(a, b, c) %}(a={{ a }};b={{ b }};c={{ c }}){% endmacro %}{% macro wrap(x) %}<{{ x }}>{% endmacro %}{% macro pair(x, y) %}[{{ x }}|{{ y }}]{% endmacro %}"
+		prelude := map[int]string{0: "", 1: "{% import 'mac' as i %}", 2: "{% from 'mac' import m3, wrap, pair %}", 3: "{% from 'mac' import m3, wrap, pair %}"}[form]
+		var args, vals []string
+		for i, sh := range shapes {
+			a, v := atomSrc(i+1, sh, pfx)
+			args = append(args, a)
+			vals = append(vals, v)
+		}
+		get := func(i int) string {
+			if i < len(vals) {
+				return vals[i]
+			}
+			return ""
+		}
+		call := "{{ " + pfx + "m3(" + strings.Join(args, ", ") + ") }}"
+		warm := "{{ " + pfx + "m3('w1', 'w2', 'w3') }}{{ " + pfx + "pair('w4', 'w5') }}"
+		want := "(a=w1;b=w2;c=w3)[w4|w5]|"
+		one := "(a=" + get(0) + ";b=" + get(1) + ";c=" + get(2) + ")"
+		if form == 3 { // the same call in two loop iterations instead of after a warm-up
+			warm, want = "", "|"
+			call = "{% for q in [1, 2] %}" + call + "{% endfor %}"
+			one += one
+		}
+		tpls := map[string]string{"mac": defs}
+		main := ""
+		if form == 0 {
+			main = defs
+		}
+		tpls["main"] = main + prelude + warm + "|" + call
+		out, err, pan, _ := c11Exec(tpls)
+		if pan != "" {
+			return core.Violation("panic", "panicked: "+pan+"\n    "+tpls["main"])
+		}
+		if err != nil {
+			return core.Violation("error", fmt.Sprintf("%q fails: %v", tpls["main"], err))
+		}
+		if out != want+one {
+			return core.Violation("macro", fmt.Sprintf("%q renders\n    %q, want\n    %q", tpls["main"], out, want+one))
+		}
+		return core.Okay(true, out)
 	case "nested":
 		// macros calling macros through _self in the defining template, depth 2, arity mismatch inside
 		p, a := c.N[0], c.N[1]
@@ -278,6 +337,25 @@ func c11Levels(tier string) []core.Level {
 				}
 			}
 		}},
+		{Name: "arguments that are macro calls with their own arguments (4 shapes, <= 3 arguments), after an earlier call in the same execution or in two loop iterations x 4 call forms", Gen: func(emit func(core.Case)) {
+			for form := 0; form < 4; form++ {
+				for n := 1; n <= 3; n++ {
+					total := 1
+					for i := 0; i < n; i++ {
+						total *= 4
+					}
+					for m := 0; m < total; m++ {
+						N := []int{form}
+						x := m
+						for i := 0; i < n; i++ {
+							N = append(N, x%4)
+							x /= 4
+						}
+						emit(core.Case{Fam: "nestargs", N: N})
+					}
+				}
+			}
+		}},
 		{Name: "macros calling macros through _self (depth 3) with every inner arity", Gen: func(emit func(core.Case)) {
 			for p := 0; p <= 4; p++ {
 				for a := 0; a <= 6; a++ {
@@ -297,7 +375,7 @@ func init() {
 	core.Register(&core.Check{
 		ID:       "C11",
 		Category: "exploration",
-		Rule: "macro definitions with 0..4 parameters x calls with 0..6 distinct arguments x call form (_self, import alias, from-import, renamed from-import) x use of the result (print, assign and print twice, concatenate, argument of another macro, argument of a recording function, in a 2-iteration loop, in a capture, as condition and filter input); argument lists built from caller variables named like the macro's own parameters; macros calling macros through _self to depth 3 with every inner arity; unknown macros of an imported set must fail. " +
+		Rule: "macro definitions with 0..4 parameters x calls with 0..6 distinct arguments x call form (_self, import alias, from-import, renamed from-import) x use of the result (print, assign and print twice, concatenate, argument of another macro, argument of a recording function, in a 2-iteration loop, in a capture, as condition and filter input); argument lists built from caller variables named like the macro's own parameters; arguments that are themselves macro calls with arguments, evaluated after earlier calls in the same execution; macros calling macros through _self to depth 3 with every inner arity; unknown macros of an imported set must fail. " +
 			"Every macro body prints each parameter and Context.Name(). Expected output by construction (positional binding, missing = null, surplus ignored, name = defining template); the distinct-outcome count shows the four call forms agree modulo the template name. distinct = distinct configuration; non-trivial = all",
 		Assumptions: []string{"a macro called through an import does not itself refer to _self (stated divergence)", "macros are defined before use in a non-extending template"},
 		Levels:      c11Levels,
